@@ -5,6 +5,7 @@ import LiquidModel.Drv.C05
 import LiquidModel.Drv.C06
 import LiquidModel.Drv.C07
 import LiquidModel.Drv.C18
+import LiquidModel.Drv.C16
 namespace Liquid.Drv
 
 /-- op name ↦ handler; each `Drv/*.lean` contributes its ops here. -/
@@ -15,6 +16,14 @@ def dispatch (op : String) : Option (List String → String) :=
   | "c06" => some c06Op
   | "lit" => some litOp
   | "stack" => some stackOp
+  | "c16esc" => some c16EscOp
+  | "c16keep" => some c16KeepOp
+  | "c16url" => some c16UrlOp
+  | "c16strip" => some c16StripOp
+  | "c16utfm" => some (c16UtfOp true)
+  | "c16utf1" => some (c16UtfOp false)
+  | "c16fold" => some c16FoldOp
+  | "c16f" => some c16FilterOp
   | _ => none
 
 end Liquid.Drv
